@@ -381,7 +381,23 @@ def suites(rng, tier):
          "distribution": {"note": "the risk admin's token-less repayment on sunset banks through the real repay handler: signer = risk admin / account authority / authority of another account; account in receivership or not; only the risk admin's repay_all may skip the token transfer"}},
         {"suite": "txval", "name": "receivership-bracket-shapes", "lines": TG.val_exhaustive(rng, "liq3", 4 if tier != "thorough" else 5),
          "distribution": {"alphabet": TG.ALPHABETS["liq3"], "note": "the 'strictly inside an active receivership' clause: transaction shapes with repeated / trailing-byte start and end instructions; a receivership that is not closed by its own end instruction lets any signer withdraw / repay afterwards"}},
+        receivership_power_suite(rng, tier),
     ]
+
+
+def receivership_power_suite(rng, tier):
+    """'anyone strictly inside an active receivership': whole liquidation / deleverage transactions through the real start,
+    withdraw, repay and end handlers (empty brackets, brackets that seize or repay nothing, third parties before / after the
+    bracket): a committed transaction never leaves the receivership marker on an account, and a signer who is not the
+    authority acts only between a start and its end"""
+    n = {"quick": 700, "thorough": 8000, "search": 2500}[tier]
+    lines = [TG.liq_tx(rng, "liq") for _ in range(n)] + [TG.liq_tx(rng, "delev") for _ in range(n // 3)]
+    if tier != "search":
+        lines += TG.sim_enumerated("liq")
+    return {"suite": "txsim", "name": "receivership-third-party-power", "lines": lines,
+            "distribution": {"liquidation": n, "deleverage": n // 3,
+                             "enumerated_len<=3": len(TG.sim_enumerated("liq")) if tier != "search" else 0}}
+
 
 
 def fee_destination_suite(rng, n):
@@ -502,7 +518,7 @@ def nontrivial(suite, case, impl):
     if suite == "hops":
         tr = HO.Trace(case, impl)
         return tr.ok and any((op[0] == 4 and res == "OK") or op[0] == 32 for op, res, *_ in HO.walk(tr))
-    if suite == "txval":
+    if suite in ("txval", "txsim"):
         return C10.nontrivial(suite, case, impl)
     if suite == "oracle":
         return True          # every case is a substitution that must be rejected
@@ -554,6 +570,14 @@ def oracle(suite, case, impl):
         return oracle_substitution(case, impl)
     if suite == "txval":
         return C10.oracle(suite, case, impl)
+    if suite == "txsim":
+        # whole transactions through the real handlers: the two consequences of the signer rule that only show at
+        # transaction level (the rest of C10's transaction oracle - shapes, health, premium - is judged under C10)
+        v = C10.oracle(suite, case, impl)
+        if v and v["key"] == "marker-survives":
+            return {"key": "receivership-power-outlives-bracket",
+                    "what": v["what"] + " - from now on ANY signer may withdraw / repay on it"}
+        return v if v and v["key"] in ("third-party-outside-receivership", "harness") else None
     if case.startswith("S "):
         return oracle_signer_rule(case, impl)
     k = kvs(case)
